@@ -181,6 +181,9 @@ func measured(c Case, call func() error) (v evid.Verdict, outcome string, alloc 
 	}()
 	err := call()
 	alloc, dur = heapAllocs()-a0, time.Since(t0)
+	if ub, ok := err.(unboundedErr); ok {
+		return evid.Fail(sig("hang", c.EP, "does-not-stop-by-itself", false), "%s: %s\nop=%q in=%s", c.EP, ub.what, c.Op, clip(c.In)), "fail", alloc, dur
+	}
 	if err != nil {
 		return evid.Pass(), "err", alloc, dur
 	}
